@@ -96,3 +96,22 @@ def run(ctx):
         for tr in tb:
             ctx.case("b:" + vlib.fp(tr[0]["scen"]))
         vlib.check_traces(ctx, tb, "tb", module="TraceDial", cfg="TraceDial_b.cfg", specname="Dial.tla (Delay=4, Timeout=2)")
+    if not ctx.replay:
+        stock_dialer(ctx)
+
+
+def stock_dialer(ctx):
+    """NewDialer's own DialFunc against real sockets (a peer that stalls the TLS handshake): bounded by Timeout and context."""
+    f = ctx.path("stock.ndjson")
+    rc, out = ctx.go_test("^TestStockDialer$", env={"VH_OUT": f}, timeout=600)
+    res = vlib.read_ndjson(f)
+    summ = [x for x in res if x.get("summary")]
+    if not summ:
+        raise vlib.Inconclusive("stock dialer driver did not finish:\n" + out[-1500:])
+    if summ[0].get("env"):
+        raise vlib.Inconclusive("no local port for the stock dialer test")
+    ctx.evaluations += summ[0]["runs"]
+    ctx.notes["stock_dialer_runs"] = summ[0]["runs"]
+    for x in res:
+        if not x.get("summary"):
+            ctx.violation("stock:" + x["key"], "stock Dialer (NewDialer): " + x["diff"], x)
